@@ -24,6 +24,8 @@ type Case struct {
 	// FailKind: 0 the failing statement is rejected by the engine; 1 it executes but leaves a state that cannot be inspected
 	// (foreign key to a column that does not exist); 2 it opens its own transaction and fails inside it
 	FailKind int `json:"fail_kind,omitempty"`
+	// ViaEnv: the dev database is named by the selected env of a project file (dev = "...") instead of --dev-url
+	ViaEnv bool `json:"via_env,omitempty"`
 }
 
 func stmtsFor(c Case) [][]string {
@@ -221,6 +223,19 @@ func checkCase(c Case) (Outcome, error) {
 		if devBefore, err = devDump(devPath); err != nil {
 			return out, fmt.Errorf("harness: %v", err)
 		}
+	}
+	if c.ViaEnv {
+		var a2 []string
+		for i := 0; i < len(args); i++ {
+			if args[i] == "--dev-url" {
+				sb.WriteFile("atlas.hcl", fmt.Sprintf("env \"x\" {\n  dev = %q\n}\n", args[i+1]))
+				a2 = append(a2, "--env", "x", "-c", "file://atlas.hcl")
+				i++
+				continue
+			}
+			a2 = append(a2, args[i])
+		}
+		args = a2
 	}
 	r := sb.Run(args...)
 	out.Exit = r.Code
